@@ -99,7 +99,7 @@ PROPS = {
         "level": "exploration",
         "jobs": [
             {"test": "TestC14", "variant": "std",
-             "quick": {"checks": 30, "shards": 12, "timeout": 400}},
+             "quick": {"checks": 22, "shards": 12, "timeout": 400}},
             {"test": "TestC14Enum", "variant": "std", "enum": True,
              "thorough": {"checks": 1, "shards": 16, "timeout": 2400}},
         ],
